@@ -156,6 +156,37 @@ def explore(chk, rnd, tier):
             if a.get("r") != "ok" or b.get("r") != "ok" or canon(dec_val(a["v"])) != canon(dec_val(b["v"])):
                 chk.add_violation("async-differs-from-unqualified", {"sql": c["sql"], "doc": c["doc"], "async": a, "plain": b})
                 break
+    # ... also when the rest of the statement looks at the column: DISTINCT, ORDER BY, LIMIT, UNION work on the values
+    # the calls return, not on their unresolved slots
+    if not chk.violations:
+        creqs_a, creqs_p, cmeta = [], [], []
+        for i in range(80 if tier == "quick" else 1200):
+            n = rnd.randint(0, 8)
+            rows = [{"a": r, "b": rnd.choice([1, 2, 2, 3, 5])} for r in range(n)]
+            tag = "c%d" % i
+            form = rnd.choice(["distinct", "order", "order-limit", "union", "distinct-order"])
+            call = "%sVF_SLOW('" + tag + "', b)"
+            if form == "distinct":
+                tmpl = "SELECT DISTINCT " + call + " AS v FROM t"
+            elif form == "order":
+                tmpl = "SELECT " + call + " AS v, a FROM t ORDER BY v " + rnd.choice(["ASC", "DESC"]) + ", a"
+            elif form == "order-limit":
+                tmpl = "SELECT " + call + " AS v, a FROM t ORDER BY v DESC, a DESC LIMIT %d" % rnd.randint(0, 4)
+            elif form == "union":
+                tmpl = "SELECT " + call + " AS v FROM t UNION SELECT a AS v FROM t"
+            else:
+                tmpl = "SELECT DISTINCT " + call + " AS v FROM t ORDER BY v DESC"
+            lat = rnd.choice([[0], [300, 0, 50], [0, 0, 900]])
+            creqs_a.append({"op": "query", "doc": enc_val({"t": rows}), "sql": tmpl % "ASYNC.", "latency": lat})
+            creqs_p.append({"op": "query", "doc": enc_val({"t": rows}), "sql": tmpl % ""})
+            cmeta.append(form)
+        ca, cp = run_go(creqs_a, timeout=900), run_go(creqs_p)
+        for form, ra, rp, a, b in zip(cmeta, creqs_a, creqs_p, ca, cp):
+            chk.count("async-clause:" + form + ":" + str(a.get("r")))
+            if a.get("r") != "ok" or b.get("r") != "ok" or a.get("nonPlain") or canon(dec_val(a["v"])) != canon(dec_val(b["v"])):
+                chk.add_violation("async-differs-from-unqualified", {"sql": ra["sql"], "doc": ra["doc"], "latency": ra["latency"],
+                                                                     "async": a, "plain_sql": rp["sql"], "plain": b})
+                break
     # nested queries forward their wait: qualified calls inside sub-queries, derived tables and EXISTS are
     # complete (and ASYNC values resolved) when the OUTER Exec returns
     if not chk.violations:
@@ -195,7 +226,13 @@ def explore(chk, rnd, tier):
                 sql = "WITH c AS (SELECT id, %s FROM t) SELECT * FROM c" % col_.replace("x)", "id)")
                 expect = sorted(float(r["id"]) for r in rows)
             else:
-                sql = "SELECT id FROM t WHERE id IN (SELECT id, %s FROM `<-t`)" % col_.replace("x)", "id)")
+                # the right side of IN is one column: SPINASYNC adds none, a plain call sits in the sub-query's WHERE
+                if qual == "ASYNC":
+                    qual = "SPINASYNC"
+                if qual == "SPINASYNC":
+                    sql = "SELECT id FROM t WHERE id IN (SELECT id, SPINASYNC.VF_SLOW('%s', id) FROM `<-t`)" % tag
+                else:
+                    sql = "SELECT id FROM t WHERE id IN (SELECT id FROM `<-t` WHERE VF_SLOW('%s', id) >= 0)" % tag
                 expect = sorted(float(r2["id"]) for r in rows for r2 in rows)
             ncases.append({"sql": sql, "doc": {"t": rows, "g": [r["items"] for r in rows]}, "tag": tag, "expect": expect, "qual": qual, "shape": shape,
                            "lat": rnd.choice([[0], [300], [0, 1500], [800, 0, 0]])})
